@@ -246,6 +246,9 @@ def check(P, R, tier):
     check_dispatch(P, R, tu)
     # the period lengths the carry loops look up, as far as they are closed forms over a tiny domain: decoded and compared
     import lentab
+    import fresh
+    nf = fresh.check_unit(R, tu, "RF-fresh")
+    R.floor("RF-fresh", "uses of looked-up period lengths in the date core", nf, 50)
     n = lentab.check(P, R, tu, {"mdays", "mcnt", "bdays", "ydays"}, rule="RF2-closed")
     R.floor("RF2-closed", "entries of period tables spelled as closed forms", n, 250)
 
